@@ -60,8 +60,8 @@ func (s *Schema) IndexableFields() []string {
 		}
 		out = append(out, f)
 	}
-	if s.Has("n.a") || s.Has("n.b") {
-		out = append(out, "n")
+	if (s.Has("n.a") || s.Has("n.b")) && s.Prof["n.a"].Kind != PBigInt && s.Prof["n.b"].Kind != PBigInt {
+		out = append(out, "n") // the object itself, unless it holds integers beyond 2^53
 	}
 	return out
 }
@@ -381,7 +381,7 @@ func (r *Rng) sortField(qc *QueryCtx) string {
 func (r *Rng) windowVal(n int) int {
 	switch r.Intn(8) {
 	case 0:
-		return -1
+		return -1 - r.Intn(3)*r.Intn(4)
 	case 1:
 		return 0
 	case 2:
